@@ -87,6 +87,15 @@ class AppLeaf(AppMid):
     pass
 
 
+class AppSide(AppBase):
+    pass
+
+
+class AppDiamond(AppMid, AppSide):
+    """Multiple inheritance: the MRO is AppDiamond, AppMid, AppSide, AppBase - a depth-first walk
+    over __bases__ would reach AppBase before AppSide."""
+
+
 class FalsyError(Exception):
     """An exception whose truth value is False (e.g. an aggregate with no sub-errors)."""
 
@@ -115,10 +124,12 @@ def _mk_exc(i, n):
         return FalsyError("falsy-%d" % n)
     if i == 9:
         return BadStrBase()
+    if i == 10:
+        return AppDiamond(n)
     raise IndexError(i)
 
 
-N_EXC = 10
+N_EXC = 11
 N_OPEN = 7
 N_MSG = 6
 N_FIN = 3
@@ -160,7 +171,11 @@ def _x_raise(e):
     raise ExtractorBoom("extractor failed")
 
 
-_X_FUNCS = {AppLeaf: _x_leaf, AppMid: _x_mid, AppBase: _x_base}
+def _x_side(e):
+    return {"code": e.code, "who": "side"}
+
+
+_X_FUNCS = {AppLeaf: _x_leaf, AppMid: _x_mid, AppBase: _x_base, AppSide: _x_side}
 
 
 def extractor_config(index):
@@ -254,6 +269,9 @@ class Interp(object):
         self.n_handoffs = 0
         self.ops = []  # rendered op sequence
         self.xcfg = extractor_config(int(self.shard.get("ext", 2)))
+        if self.shard.get("diamond"):
+            # an extractor (1: returning fields, 2: raising) on the second base of AppDiamond
+            self.xcfg[AppSide] = "dict" if int(self.shard["diamond"]) == 1 else "raise"
         self.xfuncs = dict(_X_FUNCS)
         if self.shard.get("xcollide"):
             self.xfuncs[AppBase] = _x_base_colliding
